@@ -133,7 +133,8 @@ def gen_config(rng, size="small", uniform=None):
     wvl = [rng.choice([500e-9, rng.uniform(4e-7, 2e-6)]) for _ in range(nw)]
     if uniform and rng.random() < 0.7:
         wvl = [wvl[0]] * nw
-    return {"masks": mk, "d": d, "alt": alt, "gs": gs, "wvl": wvl, "D": D, "layers": layers, "uniform": bool(uniform)}
+    return {"masks": mk, "d": d, "alt": alt, "gs": gs, "wvl": wvl, "D": D, "layers": layers, "uniform": bool(uniform),
+            "pad_layers": rng.choice([0, 0, 0, 1, 2])}
 
 
 def is_guarded(cfg):
@@ -144,10 +145,13 @@ def is_guarded(cfg):
 def build(cfg, threads=1):
     nw = len(cfg["masks"])
     masks = [numpy.array(MASKS[m], dtype=float) for m in cfg["masks"]]
+    # "pad_layers": the layer profile arrays may be longer than n_layers (only the first n_layers layers count)
+    pad = [{"h": 7000.0 + 900.0 * q, "r0": 0.31, "L0": 21.0} for q in range(int(cfg.get("pad_layers", 0)))]
+    prof = list(cfg["layers"]) + pad
     return sc.CovarianceMatrix(nw, masks, cfg["D"], numpy.array(cfg["d"], dtype=float), numpy.array(cfg["alt"], dtype=float),
                                numpy.array(cfg["gs"], dtype=float), numpy.array(cfg["wvl"], dtype=float), len(cfg["layers"]),
-                               numpy.array([l["h"] for l in cfg["layers"]]), numpy.array([l["r0"] for l in cfg["layers"]]),
-                               numpy.array([l["L0"] for l in cfg["layers"]]), threads=threads)
+                               numpy.array([l["h"] for l in prof]), numpy.array([l["r0"] for l in prof]),
+                               numpy.array([l["L0"] for l in prof]), threads=threads)
 
 
 def coq_cfg(cfg):
